@@ -519,6 +519,18 @@ class MethodMixin:
             if isinstance(fn, _t.FunctionType):
                 return self.call_function(fn, [recv] + list(args), kwargs, node)
             raise Unsupported(f'method {name} on an enum value')
+        if z3.is_expr(recv) and recv.sort().name() in self.zs.union_by_sort:
+            # a method called on a value of a union sort: decided by the arm the value is in (AttributeError where the
+            # arm's type has no such method)
+            dt, S = self.zs.union_by_sort[recv.sort().name()]
+            arms = list(S.arms.items())
+            for i, (ctor, (pyt, arm)) in enumerate(arms):
+                last = i == len(arms) - 1
+                isarm = dt.recognizer(i)(recv)
+                if (self.path.assume(isarm) or True) if last else self.path.branch(isarm):
+                    if not hasattr(pyt, name):
+                        raise PyRaise(AttributeError, (name,), node, implicit=True)
+                    return self.call_bound(BoundMethod(simp(dt.accessor(i, 0)(recv)), name), args, kwargs, node, fr)
         if isinstance(recv, (tuple, list, set, frozenset, dict)):
             if name == 'index' and isinstance(recv, (tuple, list)):
                 raise Unsupported('tuple.index with symbolic argument')
